@@ -464,7 +464,12 @@ def verdictRun (s : S) (o : String) (t : List String) : S × String :=
   let s1 := { s with inactive := s.inactive && log.all (marginOk s.cons) }
   if status != "ok" then
     let s2 := { s1 with implDead := true }
-    if s.pol == .auto && status != "exc:cap" && s.admissible then (s2, "FAIL:auto_no_raise")
+    -- the harness' guard (more than `evalCap` calls of the objective within ONE call of the optimiser) is
+    -- a budget matter: every cap of the quantifier is far below it
+    if status == "exc:cap" then
+      (s2, if s.pol != .ignore && !Spec.feasibleLog s.cons log then "FAIL:auto_policy_feasible"
+           else if Spec.budgetCalls s.mx log.length then "ok" else "FAIL:budget_guard")
+    else if s.pol == .auto && s.admissible then (s2, "FAIL:auto_no_raise")
     else if s.pol != .ignore && !Spec.feasibleLog s.cons log then
       (s2, if s.pol == .auto then "FAIL:auto_policy_feasible" else "FAIL:keep_policy_feasible")
     else (s2, "ok")
@@ -511,8 +516,12 @@ def verdictRun (s : S) (o : String) (t : List String) : S × String :=
   if nbackOk && !Spec.descent cur (s.curInit.getD (1.0 / 0.0)) then (s1, "FAIL:descent_from_init") else
   if !Spec.exitReason s.mx nb tolR then (s1, "FAIL:exit_reason") else
   if steps ≥ 2 && !Spec.budget s.mx nb (some (pn + 1).toNat) then (s1, "FAIL:budget") else
-  if steps ≥ 2 && !Spec.budgetCalls s.mx pe.toNat then
-    (s1, if lineMinKinds.contains s.kind then "FAIL:budget_calls_undercount" else "FAIL:budget_calls") else
+  if steps ≥ 2 && !Spec.budgetCalls s.mx pe.toNat && !lineMinKinds.contains s.kind then (s1, "FAIL:budget_calls") else
+  -- the known undercount of the optimisers built on one-dimensional sub-optimisers is reported only when
+  -- nothing else fails: the convergence clause is judged first
+  let under := steps ≥ 2 && !Spec.budgetCalls s.mx pe.toNat
+  let fin (r : S × String) : S × String := if under && !r.2.startsWith "FAIL" then (r.1, "FAIL:budget_calls_undercount") else r
+  fin <|
   -- convergence on strictly convex quadratics, constraints never active, a real budget
   match s.hint with
   | some h =>
@@ -533,16 +542,25 @@ def verdictRun (s : S) (o : String) (t : List String) : S × String :=
       let tag := if Spec.convNontrivial f0 fstar bound then "ok:conv:nontrivial" else "ok:conv:implied_by_descent"
       -- a run that came within 1e-6 of a bound (a start on a bound, a trial the automatic policy corrected)
       -- although the minimiser lies well inside every bound is judged under a clause of its own
-      let sfx := if touched then "_touching_bound" else ""
+      -- the scale of the quadratic form: eigenvalues `lmin .. kappa * lmin`; below 0.1 / above 10 the absolute
+      -- constants of the library's stop conditions and line searches decide (clauses of their own)
+      let scl := match h.lmin with
+        | some l => if l < 0.0999 then "_small_scale" else if l > 10 then "_large_scale" else ""
+        | none => ""
+      -- ... and the location: a minimiser with a coordinate beyond 100 in magnitude (the generator keeps |x| <= 6)
+      let far := h.xs.any (fun x => Float.abs x > 100)
+      let scl := if scl == "" && far then "_far_location" else scl
+      let sfx := if touched then "_touching_bound" else scl
       if !Spec.convergedGap cur fstar bound then
-        (s1, "FAIL:convergence" ++ (if s.kind == "simplex" && !touched then simplexWhy s ptP h.xs else sfx))
+        (s1, "FAIL:convergence" ++ (if s.kind == "simplex" && !touched then
+            (let w := simplexWhy s ptP h.xs; if w == "" then scl else w) else sfx))
       else
         match h.lmin with
         | some lmin =>
           if !Spec.convergedDist lmin ptP h.xs bound then (s1, "FAIL:convergence_distance" ++ sfx) else (s1, tag)
         | none => (s1, tag)
-    else (s1, "ok")
-  | none => (s1, "ok")
+    else (s1, "ok:conv:not_judged")
+  | none => (s1, "ok:conv:not_judged")
 
 def verdictBracket (s : S) (pol : Policy) (cons : Spec.Cons Float) (t : List String) : String :=
   let log := implLog s t
@@ -634,7 +652,7 @@ def step (s : S) (op : List String) (impl : Option (List String)) : S × String 
           if s0.modelDead || !modelled s0.opt then (s0, "-") else answer s0 (runInit s0 pl)
         match impl with
         -- after an exception the harness does not touch the optimiser any more
-        | some ("exc:dead" :: _) => (s1, out, "ok")
+        | some ("exc:dead" :: _) => (s1, out, "skip:dead")
         | some t => let (s2, v) := verdictRun { s1 with inited := true } "init" t; (s2, out, v)
         | none => (s1, out, "-")
       | none => (s, "bad-op", "-")
@@ -643,7 +661,7 @@ def step (s : S) (op : List String) (impl : Option (List String)) : S × String 
     if o != "step" && o != "optimize" then (s, "bad-op", "-") else
     -- after an exception the harness does not touch the optimiser any more
     match impl with
-    | some ("exc:dead" :: _) => (s, if modelled s.opt then "exc:dead" else "-", "ok")
+    | some ("exc:dead" :: _) => (s, if modelled s.opt then "exc:dead" else "-", "skip:dead")
     | _ =>
       let (s1, out) : S × String :=
         if !modelled s.opt then (s, "-")
@@ -654,7 +672,7 @@ def step (s : S) (op : List String) (impl : Option (List String)) : S × String 
       -- refuses, `step` does not check; nothing of the property is about that)
       | some t =>
         let same := t.takeWhile (· != "#") == (out.splitOn " ").filter (· != "")
-        if s1.inited then (let (s2, v) := verdictRun { s1 with modelSame := same } o t; (s2, out, v)) else (s1, out, "ok")
+        if s1.inited then (let (s2, v) := verdictRun { s1 with modelSame := same } o t; (s2, out, v)) else (s1, out, "skip:uninitialised")
       | none => (s1, out, "-")
   | _ => (s, "bad-op", "-")
 
